@@ -10,6 +10,7 @@ import Flowjaxv.Proofs.PermMass
 import Flowjaxv.Proofs.FlowLayers
 import Flowjaxv.Proofs.NetMassMeas
 import Flowjaxv.Proofs.NetMassSpline
+import Flowjaxv.Proofs.TriSplineMass
 /-!
 # C04 — exp(log_prob) integrates to one, and samples are distributed according to that density
 
@@ -46,9 +47,15 @@ Permute, condition-dependent Planar, and any depth / any mixture of all of these
 scalar transformer family that is lawful on ℝ with the one-dimensional layer fact — no differentiability in the conditioning
 coordinates is needed.
 
+14 (`TriSplineFlow`) the fifth premade architecture: elementwise layers of any scalar family with the one-dimensional layer fact
+(`LeakyTanh(m, (n,))`, `Vmap` of splines, `AdditiveCondition(Linear)`), `TriangularAffine` (constant Jacobian, `det = ∏ diag`),
+closure of the layer facts under the generated `Chain` / `Invert` (`Proofs/MassChain.lean`, `Proofs/TriSplineMass.lean`), the
+whole generated factory body `triangular_spline_flow`.
+
 PARTIAL with respect to the informal property: PRNG statistics and rounding are outside; for the rational-quadratic-spline
 transformer inside Coupling / MAF the joint measurability is PROVED in section `SplineMeas` (no measurability hypothesis left);
-`triangular_spline_flow` has no dedicated d-dimensional theorem; where the library inverts
+`triangular_spline_flow` is section 14 (`TriSplineFlow`: every layer, any number of layers, both orientations, every condition; the
+layer key determines the splines / triangular matrix AFTER unwrap — hand model `Flows.triSplineCore`); where the library inverts
 numerically (BNAF) or not at all (Planar tanh) the sampler law is stated for the exact inverse; Planar's `w = 0` is excluded (the
 code returns NaN there).
 -/
@@ -1152,6 +1159,226 @@ end SplineMeas
 
 end MeasurableLayers
 /-! ## ===== END 13. ===== -/
+
+/-! ## ===== BEGIN 14. `triangular_spline_flow` =====
+
+Each layer is `Chain([LeakyTanh(m, (dim,)), Vmap(splines), Invert(LeakyTanh(m, (dim,))), TriangularAffine, (AdditiveCondition(Linear))])`
+followed by the GENERATED `_add_default_permute` (hand model `Flows.triSplineCore`, `Flows.triSplineLayer`); the flow's bijection
+is the GENERATED factory body `Invert(Scan(layers)) if invert else Scan(layers)` (`Flows.triSplineFlowBij`, the object of C01
+`tri_spline_flow_lawful` and C03 `tri_spline_flow_ld_antisym`).  `NetMass.VLayer n b c` (`Proofs/TriSplineMass.lean`): the list-level
+bijection `b` keeps vectors of length `n`, and read in coordinates on `ℝⁿ` (`NetMass.liftBij n b`) both `b` and the generated
+`Invert(b)` supply the two layer facts at condition `c`; `VLayer.layerOK` spells that out as two `NetMass.LayerOK`. -/
+section TriSplineFlow
+open Flows FlowsPf
+
+/-- **the layer facts are closed under composition** (any measurable space, any measure): if the inverse of `g` is
+`a⁻¹ ∘ b⁻¹`, its forward map `b ∘ a`, and the inverse log-dets add along the trajectory, then `g` supplies the two layer facts as
+soon as `a` and `b` do — for every integrand / base density -/
+theorem layer_facts_comp {X C : Type} [MeasurableSpace X] (μ : Measure X) {a b g : Bij X C ℝ} {c : C}
+    (ha : Mass.MassOK μ a c ∧ Mass.LawOK μ a c) (hb : Mass.MassOK μ b c ∧ Mass.LawOK μ b c)
+    (hfst : ∀ y, (g.invLd y c).1 = g.inv y c) (hfwd : ∀ x, g.fwd x c = b.fwd (a.fwd x c) c)
+    (hinv : ∀ y, g.inv y c = a.inv (b.inv y c) c)
+    (hld : ∀ y, (g.invLd y c).2 = (b.invLd y c).2 + (a.invLd (b.inv y c) c).2) :
+    Mass.MassOK μ g c ∧ Mass.LawOK μ g c := Mass.Layer.comp2 ha hb hfst hfwd hinv hld
+
+/-- **the generated `Chain` of any list of layers that supply the two layer facts supplies them**, and if every member also
+supplies them inside `Invert(·)`, so does `Invert(Chain(…))` — any measurable space, any measure, any length -/
+theorem chain_layer_facts {X C : Type} [MeasurableSpace X] (μ : Measure X) (bs : List (Bij X C ℝ)) (c : C)
+    (h : ∀ b ∈ bs, Mass.MassOK μ b c ∧ Mass.LawOK μ b c) :
+    (Mass.MassOK μ (Chain.mk bs).toBij c ∧ Mass.LawOK μ (Chain.mk bs).toBij c) ∧
+    ((∀ b ∈ bs, Mass.MassOK μ (Invert.mk b).toBij c ∧ Mass.LawOK μ (Invert.mk b).toBij c) →
+      Mass.MassOK μ (Invert.mk (Chain.mk bs).toBij).toBij c ∧ Mass.LawOK μ (Invert.mk (Chain.mk bs).toBij).toBij c) :=
+  ⟨Mass.Layer.chain bs h, fun h' => (Mass.BiLayer.chain bs fun b hb => ⟨h b hb, h' b hb⟩).2⟩
+
+/-- the same for list-level layers read in coordinates: the generated `Chain` of any list of `VLayer`s is a `VLayer`, so is
+`Invert(·)`, so is either value of the factories' `invert` flag -/
+theorem vlayer_closed {n : ℕ} {C : Type} (c : C) :
+    (∀ bs : List (Bij (List ℝ) C ℝ), (∀ b ∈ bs, NetMass.VLayer n b c) → NetMass.VLayer n (Chain.mk bs).toBij c) ∧
+    (∀ b : Bij (List ℝ) C ℝ, NetMass.VLayer n b c → NetMass.VLayer n (Invert.mk b).toBij c) ∧
+    (∀ (b : Bij (List ℝ) C ℝ) (invert : Bool), NetMass.VLayer n b c → NetMass.VLayer n (if invert then invertOf b else b) c) :=
+  ⟨fun bs h => NetMass.VLayer.chain bs c h, fun _ h => h.invert, fun _ invert h => h.orient invert⟩
+
+/-- what a `VLayer` is for: both `NetMass.LayerOK` facts, in both orientations -/
+theorem vlayer_layerOK {n : ℕ} {C : Type} {b : Bij (List ℝ) C ℝ} {c : C} (h : NetMass.VLayer n b c) :
+    NetMass.LayerOK (NetMass.liftBij n b) c ∧ NetMass.LayerOK (Gen.Invert.mk (NetMass.liftBij n b)).toBij c := h.layerOK
+
+/-- **every elementwise layer** on `ℝⁿ`: coordinate `i` goes through the scalar bijection `τ i`, the log-det is the sum of the
+scalar ones.  Per coordinate: lawful on ℝ, log-det antisymmetric, the ONE-dimensional layer fact, measurable inverse and inverse
+log-det.  Then the `n`-dimensional layer facts hold in both orientations (the trivial-locality case of `autoregressive_layer`). -/
+theorem elementwise_layer {n : ℕ} {C : Type} (τ : Fin n → Bij ℝ C ℝ) (c : C) (hL : ∀ i, (τ i).Lawful univ univ)
+    (hanti : ∀ i, (τ i).LdAntisym univ) (h1 : ∀ i, Mass.LawOK volume (τ i) c)
+    (hmi : ∀ i, Measurable fun y => (τ i).inv y c) (hml : ∀ i, Measurable fun y => ((τ i).invLd y c).2) :
+    NetMass.LayerOK (NetMass.liftBij n (Bij.elementwise (List.ofFn τ))) c ∧
+    NetMass.LayerOK (Gen.Invert.mk (NetMass.liftBij n (Bij.elementwise (List.ofFn τ)))).toBij c :=
+  (NetMass.elementwise_vlayer τ c hL hanti h1 hmi hml).layerOK
+
+/-- **`LeakyTanh(max_val, (n,))`** as built by the generated constructor: every `max_val > 0`, every `n`, every condition -/
+theorem leakytanh_nd_layer {n : ℕ} {C : Type} {m : ℝ} (hm : 0 < m) (c : C) :
+    NetMass.VLayer n (Bij.elementwise (List.replicate n ((LeakyTanh.init m).toBij : Bij ℝ C ℝ))) c :=
+  NetMass.leakytanh_vlayer hm c
+
+/-- **`Vmap` of `n` rational-quadratic splines**, each well-formed (`Rqs.RqsWF`) -/
+theorem spline_vmap_layer {n : ℕ} {C : Type} (ss : List (RationalQuadraticSpline ℝ)) (hlen : ss.length = n)
+    (hwf : ∀ s ∈ ss, Rqs.RqsWF s) (c : C) :
+    NetMass.VLayer n (Bij.elementwise (ss.map fun s => (s.toBij : Bij ℝ C ℝ))) c :=
+  NetMass.splines_vlayer ss hlen hwf c
+
+/-- … in particular the splines the constructor builds from ANY raw parameter rows (`Flows.rqsSpline cfg init row`:
+`_real_to_increasing_on_interval` of the raw widths / heights, the derivative lambda; C11 `rqs_params_wf_core`) -/
+theorem spline_vmap_layer_of_raw {n : ℕ} {C : Type} {cfg : RqsCfg ℝ} {init : List ℝ} (hcfg : RqsCfgOK cfg init)
+    (rows : List (List ℝ)) (hlen : rows.length = n) (c : C) :
+    NetMass.VLayer n (Bij.elementwise ((rows.map (rqsSpline cfg init)).map fun s => (s.toBij : Bij ℝ C ℝ))) c :=
+  NetMass.splines_vlayer _ (by simpa using hlen) (fun s hs => by
+    obtain ⟨row, _, rfl⟩ := List.mem_map.mp hs; exact rqsFamily_wf hcfg row) c
+
+/-- **`AdditiveCondition(Linear(cond_dim, n, use_bias=False))`**: the translation `x ↦ x + W c`, every `W` with `n` rows -/
+theorem additive_condition_layer {n : ℕ} (W : List (List ℝ)) (hW : W.length = n) (c : List ℝ) :
+    NetMass.VLayer n (linearCondition W) c := NetMass.linearCondition_vlayer W hW c
+
+/-- **`TriangularAffine` is an everywhere-differentiable affine bijection of `ℝⁿ` with constant Jacobian `A`**, `det A ≠ 0`, and
+the reported log-det is `log |det A|` — every triangular matrix with non-zero diagonal (`TriPf.TriWF`), both triangles -/
+theorem triangular_affine_jacobian {n : ℕ} {C : Type} {t : Tri.TriAffine ℝ} (h : TriPf.TriWF n t) (c : C) :
+    (NetMass.liftBij n (t.toBij : Bij (List ℝ) C ℝ)).Lawful univ univ ∧
+    (∀ v, HasFDerivAt (fun x => (NetMass.liftBij n (t.toBij : Bij (List ℝ) C ℝ)).fwd x c)
+      (VecLd.matCLM (TriPf.toMat n t.triangular)) v) ∧
+    (VecLd.matCLM (TriPf.toMat n t.triangular)).det ≠ 0 ∧
+    (∀ v, ((NetMass.liftBij n (t.toBij : Bij (List ℝ) C ℝ)).fwdLd v c).2
+      = Real.log |(VecLd.matCLM (TriPf.toMat n t.triangular)).det|) := NetMass.triangular_jac h c
+
+/-- **`TriangularAffine`** (hand model `Tri.*`): the layer facts, both orientations, every condition -/
+theorem triangular_affine_layer {n : ℕ} {C : Type} {t : Tri.TriAffine ℝ} (h : TriPf.TriWF n t) (c : C) :
+    NetMass.VLayer n (t.toBij : Bij (List ℝ) C ℝ) c := NetMass.triangular_vlayer h c
+
+/-- … for the four methods GENERATED from `flowjax.bijections.TriangularAffine` (`Gen/TriangularGen.lean`), at EVERY raw
+parameter value: diagonal `softplus(rawᵢ) > 0`, any square `arr`, any `loc`, both triangles -/
+theorem triangular_affine_gen_layer {n : ℕ} {C : Type} (lower : Bool) (raw : List ℝ) (arr : List (List ℝ)) (loc : List ℝ)
+    (hsq : TriPf.Square n arr) (hr : raw.length = n) (hl : loc.length = n) (c : C) :
+    NetMass.VLayer n (TriGen.toBij (TriGen.unwrap (TriGen.ofRaw lower raw arr loc)) : Bij (List ℝ) C ℝ) c :=
+  NetMass.triangular_gen_ofRaw_vlayer lower raw arr loc hsq hr hl c
+
+/-- `WeightNormalization.unwrap` (GENERATED, `Gen/Wrappers.lean`: row `i` becomes `scaleᵢ · rowᵢ / ‖rowᵢ‖`) keeps a triangular matrix
+with non-zero diagonal triangular with non-zero diagonal, for all non-zero scales -/
+theorem weightnorm_triangular {n : ℕ} {t : Tri.TriAffine ℝ} (h : TriPf.TriWF n t) (sc : List ℝ) (hs : sc.length = n)
+    (hne : ∀ i < n, sc.getD i 0 ≠ 0) :
+    TriPf.TriWF n ⟨(⟨t.triangular, sc⟩ : Wr.WeightNormalization ℝ).unwrap, t.loc, t.lower⟩ :=
+  TriPf.weightnorm_triWF h sc hs hne
+
+/-- the matrix `triangular_spline_flow` builds — `_to_triangular(softplus(raw diagonal), arr)` wrapped in `WeightNormalization`
+with scales `softplus(raw scale)` — is `TriWF` for EVERY raw diagonal, every square `arr`, every raw scale, every `loc` -/
+theorem weightnorm_triangular_of_raw {n : ℕ} (lower : Bool) (raw : List ℝ) (arr : List (List ℝ)) (loc : List ℝ)
+    (hsq : TriPf.Square n arr) (hr : raw.length = n) (hl : loc.length = n) (sraw : List ℝ) (hs : sraw.length = n) :
+    TriPf.TriWF n ⟨(⟨Params.triangularOfRaw lower raw arr, sraw.map fun r => (Params.softplusRaw r).unwrap⟩ :
+      Wr.WeightNormalization ℝ).unwrap, loc, lower⟩ := by
+  refine TriPf.weightnorm_triWF (t := Tri.ofRaw lower raw arr loc) (TriPf.ofRaw_wf lower raw arr loc hsq hr hl) _
+    (by simpa using hs) fun i hi => ?_
+  have hi' : i < sraw.length := by omega
+  simp only [List.getD_eq_getElem?_getD, List.getElem?_map, List.getElem?_eq_getElem hi', Option.map_some, Option.getD_some]
+  exact (ParamsPf.softplusRaw_pos _).ne'
+
+/-- the layer key of a layer built from RAW parameters satisfies `TriSplineOK`: any `tanh_max_val > 0`, `dim` splines built by the
+constructor from any raw rows (any accepted configuration: knots ≥ 1, interval), the weight-normalised triangular matrix built
+from any raw diagonal (through softplus), any square `arr`, any raw row scales, any `loc`, and any `dim × cond_dim` matrix or none -/
+theorem tri_spline_net_of_raw (dim : ℕ) {m : ℝ} (hm : 0 < m) {cfg : RqsCfg ℝ} {init : List ℝ} (hcfg : RqsCfgOK cfg init)
+    (rows : List (List ℝ)) (hrows : rows.length = dim) (lower : Bool) (raw : List ℝ) (arr : List (List ℝ)) (loc : List ℝ)
+    (hsq : TriPf.Square dim arr) (hr : raw.length = dim) (hl : loc.length = dim) (sraw : List ℝ) (hs : sraw.length = dim)
+    (W : Option (List (List ℝ))) (hW : ∀ W', W = some W' → W'.length = dim) :
+    TriSplineOK dim m ⟨rows.map (rqsSpline cfg init),
+      ⟨(⟨Params.triangularOfRaw lower raw arr, sraw.map fun r => (Params.softplusRaw r).unwrap⟩ :
+        Wr.WeightNormalization ℝ).unwrap, loc, lower⟩, W⟩ :=
+  ⟨hm, by simpa using hrows, fun s hs' => by obtain ⟨row, _, rfl⟩ := List.mem_map.mp hs'; exact rqsFamily_wf hcfg row,
+    weightnorm_triangular_of_raw lower raw arr loc hsq hr hl sraw hs, hW⟩
+
+/-- **`tri_spline_layer`**: EVERY layer of `triangular_spline_flow` — any `dim`, any `tanh_max_val > 0`, any well-formed splines
+(any knots), any triangular matrix with non-zero diagonal, conditional or not (`TriSplineOK`), before and after the default
+permutation (`PermKeyOK`: what `jr.permutation` returns) — supplies the two layer facts in BOTH orientations at EVERY condition -/
+theorem tri_spline_layer {dim : ℕ} {m : ℝ} {key : TriSplineNet ℝ × List ℕ} (h : TriSplineOK dim m key.1)
+    (hk : PermKeyOK dim key.2) (c : List ℝ) :
+    (NetMass.LayerOK (NetMass.liftBij dim (triSplineCore key.1 dim m)) c ∧
+      NetMass.LayerOK (Gen.Invert.mk (NetMass.liftBij dim (triSplineCore key.1 dim m))).toBij c) ∧
+    (NetMass.LayerOK (NetMass.liftBij dim (triSplineLayer dim m key)) c ∧
+      NetMass.LayerOK (Gen.Invert.mk (NetMass.liftBij dim (triSplineLayer dim m key))).toBij c) :=
+  ⟨(NetMass.triSplineCore_vlayer h c).layerOK, (NetMass.triSplineLayer_vlayer h hk c).layerOK⟩
+
+/-- the whole bijection of the generated factory body, any number of layers, both values of `invert` -/
+theorem tri_spline_flow_layer (dim : ℕ) (m : ℝ) (key : ℕ → TriSplineNet ℝ × List ℕ) (nl : ℕ) (invert : Bool)
+    (hnet : ∀ i < nl, TriSplineOK dim m (key i).1) (hperm : ∀ i < nl, PermKeyOK dim (key i).2) (c : List ℝ) :
+    NetMass.VLayer dim (triSplineFlowBij dim m key nl invert) c :=
+  NetMass.triSplineFlow_vlayer dim m key nl invert hnet hperm c
+
+/-- **`flowNd_tri_spline_normalised`**: `Transformed(base, triangular_spline_flow's bijection)` over a normalised base on
+`ℝ^dim` integrates to one — any number of layers, both values of `invert`, every parameter value, every condition -/
+theorem flowNd_tri_spline_normalised {K : Type} (dim : ℕ) (m : ℝ) (key : ℕ → TriSplineNet ℝ × List ℕ) (nl : ℕ)
+    (invert : Bool) (hnet : ∀ i < nl, TriSplineOK dim m (key i).1) (hperm : ∀ i < nl, PermKeyOK dim (key i).2)
+    (base : Distn (Fin dim → ℝ) (List ℝ) K ℝ) (c : List ℝ) (hbase : ∫ z, Real.exp (base.logProb z c) = 1) :
+    ∫ y, Real.exp ((Transformed.mk base
+      (NetMass.liftBij dim (triSplineFlowBij dim m key nl invert))).toDist.logProb y c) = 1 := by
+  rw [Mass.transformed_mass volume _ c (tri_spline_flow_layer dim m key nl invert hnet hperm c).ok.1.1, hbase]
+
+/-- the same about the distribution the generated factory returns (`Flows.triSplineFlow`, a list-level `Transformed`), its
+`_log_prob` evaluated at the vectors of length `dim` -/
+theorem flowNd_tri_spline_normalised_list {K : Type} (dim : ℕ) (m : ℝ) (key : ℕ → TriSplineNet ℝ × List ℕ) (nl : ℕ)
+    (invert : Bool) (hnet : ∀ i < nl, TriSplineOK dim m (key i).1) (hperm : ∀ i < nl, PermKeyOK dim (key i).2)
+    (base : VDist K ℝ) (c : List ℝ) (hbase : ∫ z : Fin dim → ℝ, Real.exp (base.logProb (List.ofFn z) c) = 1) :
+    ∫ y : Fin dim → ℝ, Real.exp ((triSplineFlow dim m key nl invert base).logProb (List.ofFn y) c) = 1 := by
+  have hv := tri_spline_flow_layer dim m key nl invert hnet hperm c
+  have e : ∀ y : Fin dim → ℝ, (triSplineFlow dim m key nl invert base).logProb (List.ofFn y) c
+      = (Transformed.mk (NetMass.liftDist dim base)
+          (NetMass.liftBij dim (triSplineFlowBij dim m key nl invert))).toDist.logProb y c :=
+    fun y => NetMass.transformed_lift_logProb hv base y
+  simp_rw [e]
+  exact flowNd_tri_spline_normalised dim m key nl invert hnet hperm (NetMass.liftDist dim base) c hbase
+
+/-- **`flowNd_tri_spline_sample_law`**: keys drawn from any measure `κ`; if the base sampler's law has density
+`exp ∘ base log_prob`, the law of the flow's `sample` has density `exp ∘ log_prob` -/
+theorem flowNd_tri_spline_sample_law {K : Type} [MeasurableSpace K] (κ : Measure K) (dim : ℕ) (m : ℝ)
+    (key : ℕ → TriSplineNet ℝ × List ℕ) (nl : ℕ) (invert : Bool) (hnet : ∀ i < nl, TriSplineOK dim m (key i).1)
+    (hperm : ∀ i < nl, PermKeyOK dim (key i).2) (base : Distn (Fin dim → ℝ) (List ℝ) K ℝ) (c : List ℝ)
+    (hs : Measurable fun k => base.sample k c)
+    (hbase : Measure.map (fun k => base.sample k c) κ
+      = volume.withDensity fun z => ENNReal.ofReal (Real.exp (base.logProb z c))) :
+    Measure.map (fun k => (Transformed.mk base
+        (NetMass.liftBij dim (triSplineFlowBij dim m key nl invert))).toDist.sample k c) κ
+      = volume.withDensity fun y => ENNReal.ofReal (Real.exp ((Transformed.mk base
+        (NetMass.liftBij dim (triSplineFlowBij dim m key nl invert))).toDist.logProb y c)) :=
+  (Mass.transformed_law volume κ (Transformed.mk base (NetMass.liftBij dim (triSplineFlowBij dim m key nl invert))) c
+    (tri_spline_flow_layer dim m key nl invert hnet hperm c).ok.1.2 hs hbase).2
+
+/-- a stack of separately nested layers (`Transformed(Transformed(base, layer₁), layer₂)…`), each a layer of the architecture in
+either orientation: normalised, by `flowNd_layerOK_stack_normalised` -/
+theorem flowNd_tri_spline_stack_normalised {K : Type} (dim : ℕ) (m : ℝ) (base : Distn (Fin dim → ℝ) (List ℝ) K ℝ) (c : List ℝ)
+    (bs : List (Bij (Fin dim → ℝ) (List ℝ) ℝ))
+    (hall : ∀ b ∈ bs, ∃ key : TriSplineNet ℝ × List ℕ, TriSplineOK dim m key.1 ∧ PermKeyOK dim key.2 ∧
+      (b = NetMass.liftBij dim (triSplineLayer dim m key) ∨
+       b = (Gen.Invert.mk (NetMass.liftBij dim (triSplineLayer dim m key))).toBij))
+    (hbase : ∫ z, Real.exp (base.logProb z c) = 1) :
+    ∫ y, Real.exp ((nestTransformed base bs).logProb y c) = 1 := by
+  refine flowNd_layerOK_stack_normalised dim base c bs (fun b hb => ?_) hbase
+  obtain ⟨key, h, hk, rfl | rfl⟩ := hall b hb
+  · exact (tri_spline_layer h hk c).2.1
+  · exact (tri_spline_layer h hk c).2.2
+
+/-- non-vacuity: the conditional layer `FlowsPf.triSplineNet` on `ℝ²` (two copies of the 3-bin spline `Rqs.exampleSpline` with
+boundary derivatives 2 and 3, the lower-triangular matrix `[[1, 0], [1/2, 2]]`, `loc = (0, 1)`, condition matrix `[[1], [-2]]`,
+`tanh_max_val = 3`, followed by `Flip`) supplies the layer facts in both orientations at every condition -/
+theorem tri_spline_layer_instance (c : List ℝ) :
+    NetMass.LayerOK (NetMass.liftBij 2 (triSplineLayer 2 3 (triSplineNet, []))) c ∧
+    NetMass.LayerOK (Gen.Invert.mk (NetMass.liftBij 2 (triSplineLayer 2 3 (triSplineNet, [])))).toBij c :=
+  (tri_spline_layer (key := (triSplineNet, [])) triSplineNet_ok (fun _ h2 => absurd rfl h2) c).2
+
+/-- a complete concrete flow: the one-layer `triangular_spline_flow` of that layer over `StandardNormal((2,))`, default
+`invert=True`, integrates to one at EVERY value of the conditioning variable; so does the three-layer flow of C01's instance -/
+theorem tri_spline_flow_instance {K : Type} (smp : K → List ℝ → Fin 2 → ℝ) (c : List ℝ) :
+    ∫ y, Real.exp ((Transformed.mk (Mass.stdNormalN 2 smp)
+      (NetMass.liftBij 2 (triSplineFlowBij 2 3 (fun _ => (triSplineNet, [])) 1 true))).toDist.logProb y c) = 1 ∧
+    ∫ y, Real.exp ((Transformed.mk (Mass.stdNormalN 2 smp)
+      (NetMass.liftBij 2 (triSplineFlowBij 2 3 (fun _ => (triSplineNet, [])) 3 true))).toDist.logProb y c) = 1 :=
+  ⟨flowNd_tri_spline_normalised 2 3 _ 1 true (fun _ _ => triSplineNet_ok) (fun _ _ _ h2 => absurd rfl h2) _ c
+      (Mass.stdNormalN_normalised 2 smp c),
+   flowNd_tri_spline_normalised 2 3 _ 3 true (fun _ _ => triSplineNet_ok) (fun _ _ _ h2 => absurd rfl h2) _ c
+      (Mass.stdNormalN_normalised 2 smp c)⟩
+
+end TriSplineFlow
+/-! ## ===== END 14. ===== -/
 
 /-- for every unconstrained `u`, non-zero `w` and leaky-relu slope `0 < s ≤ 1`, the generated planar layer
 (with the generated constraint `get_act_scale`) is a lawful bijection of ℝⁿ — the hypothesis `flowNd_normalised_of`
